@@ -134,7 +134,7 @@ def nested(chk, crate):
             for rbb, e in rets:
                 kind = f.classify_ret(e)
                 if any(x[0] == "call" and x[1] == cn and len(x) > 3 and x[3] == bb for x in walk(e)):
-                    if kind == "propagate" or kind == "?":
+                    if kind in ("propagate", "err", "?"):
                         ok = True
             chk.require(ok, "C20/nested-abort-propagates", inst,
                         "the outcome of %s is not handed on with `?`: an abort reported by the terminal inside it (Err carrying the "
@@ -214,10 +214,11 @@ def on_code_edge(f, region, ret_bb, code):
             # the edge must be taken for this code only
             if target is not None and (sum(1 for v, tb in t["targets"] if tb == target) != 1 or t["else"] == target):
                 target = None
-        elif e[0] == "bin" and e[1] == "Eq":
+        elif e[0] == "bin" and e[1] in ("Eq", "Ne"):
             a, b = e[2], e[3]
             if (mentions_error_field(a) and b == ("const", code)) or (mentions_error_field(b) and a == ("const", code)):
-                target = ed["else"]
+                # the edge taken exactly when the code equals `code`
+                target = ed["else"] if e[1] == "Eq" else ed.get(0)
         if target is not None and f.edge_dominates((i, target), ret_bb):
             return True
     return False
